@@ -1,12 +1,12 @@
 ------------------------------- MODULE MC_Cross ------------------------------
 (* exhaustive exploration of the bookkeeping over small shapes, both sweep directions, every rank choice *)
 EXTENDS Cross
-CONSTANTS SHAPES, KICKS, NSWEEPS
+CONSTANTS SHAPES, KICKS, NSWEEPS, R0
 VARIABLES N, kick, rank, nidx, k, dir, swp, conf
 vars == <<N, kick, rank, nidx, k, dir, swp, conf>>
 
 Init == /\ N \in SHAPES /\ kick \in KICKS
-        /\ rank = CrossInit0(N, [j \in 1..(Len(N) + 1) |-> IF j = 1 \/ j = Len(N) + 1 THEN 1 ELSE 2])
+        /\ \E r0 \in R0 : rank = SweepInit0(N, [j \in 1..(Len(N) + 1) |-> IF j = 1 \/ j = Len(N) + 1 THEN 1 ELSE r0])
         /\ nidx = rank
         /\ k = 0 /\ dir = "LR" /\ swp = 1 /\ conf = TRUE
 
@@ -30,6 +30,8 @@ Spec == Init /\ [][Step]_vars
 
 Conformable == conf
 IdxCovers == \A j \in 1..(Len(N) + 1) : nidx[j] = rank[j]
+\* the start ranks handed to the index-set loop are admissible (whatever the ranks of the start tensor)
+StartAdmissible == (k = 0 /\ dir = "LR" /\ swp = 1) => Admissible(N, rank)
 RanksValid == /\ rank[1] = 1 /\ rank[Len(N) + 1] = 1
               /\ \A j \in 1..(Len(N) + 1) : rank[j] >= 1
 Q_SHAPES == {<<2, 2>>, <<2, 3>>, <<3, 3, 3>>, <<2, 3, 4>>, <<5, 4, 3>>, <<2, 2, 2, 2>>, <<20, 20>>, <<6, 7>>, <<20, 2, 20>>}
